@@ -450,6 +450,129 @@ fn prog_cases(tier: &str) -> Vec<Value> {
             cases.push(json!({"k": "prog", "what": "peek-poke-neighbours", "text": l.join("\n") + "\n", "expect": e.join("\r\n") + "\r\n", "labels": [format!("value {} layout {}", a, layout)], "n": l.len()}));
         }
     }
+    // PEEK / POKE of an INTEGER variable of a STATIC subprogram on its first four activations, while the module's
+    // variables change size between the calls (a string grows and shrinks, a dynamic array is REDIMmed) and the first
+    // call comes from the module or from inside another SUB that has returned since: the two bytes are the variable's
+    // on every activation, and a POKE changes that variable and no neighbour
+    for &a in &[4660, -2, 255] {
+        for first_from_sub in [false, true] {
+            for change in 0..4 {
+                let mut l: Vec<String> = vec!["DECLARE SUB Keeper ()".into(), "DECLARE SUB Outer ()".into(), "T$ = \"ab\"".into(), "REDIM D%(2)".into(), "M% = 1".into()];
+                let (c1, c2): (&str, &str) = match change {
+                    0 => ("T$ = T$ + \"cdefgh\"", "T$ = \"\""),
+                    1 => ("REDIM D%(9)", "REDIM D%(0)"),
+                    2 => ("T$ = \"a\": REDIM D%(5)", "T$ = STRING$(40, \"z\")"),
+                    _ => ("M% = 2", "M% = 3"),
+                };
+                l.push(if first_from_sub { "Outer".into() } else { "Keeper".into() });
+                l.push(c1.into());
+                l.push("Keeper".into());
+                l.push(c2.into());
+                l.push("Keeper".into());
+                l.push("Keeper".into());
+                l.push("PRINT M%; LEN(T$); UBOUND(D%)".into());
+                l.push("END".into());
+                l.extend(["SUB Outer".to_string(), "L$ = \"local\"".into(), "K% = 9".into(), "Keeper".into(), "END SUB".into()]);
+                l.extend(["SUB Keeper STATIC".to_string(), "N% = N% + 1".into(), "IF N% = 1 THEN".into(), format!("W% = {}", lit(a)), "Z% = 77".into(), "Y$ = \"static\"".into(), "END IF".into()]);
+                l.push("PRINT N%; PEEK(VARPTR(W%)); PEEK(VARPTR(W%) + 1)".into());
+                l.push("POKE VARPTR(W%), N%".into());
+                l.push("PRINT W%; Z%; Y$".into());
+                l.push("END SUB".into());
+                let mut e: Vec<String> = vec![];
+                let mut w = a as i16;
+                for n in 1..=4i64 {
+                    let b = w.to_le_bytes();
+                    e.push(format!("{}{}{}", fmt_num(n), fmt_num(b[0] as i64), fmt_num(b[1] as i64)));
+                    w = i16::from_le_bytes([n as u8, b[1]]);
+                    e.push(format!("{}{}static", fmt_num(w as i64), fmt_num(77)));
+                }
+                let (m, tl, ub) = match change { 0 => (1, 0, 2), 1 => (1, 2, 0), 2 => (1, 40, 5), _ => (3, 2, 2) };
+                e.push(format!("{}{}{}", fmt_num(m), fmt_num(tl), fmt_num(ub)));
+                cases.push(json!({"k": "prog", "what": "peek-poke-static", "text": l.join("\n") + "\n", "expect": e.join("\r\n") + "\r\n", "labels": [format!("value {} first call from {} change {}", a, if first_from_sub { "a SUB" } else { "the module" }, change)], "n": l.len()}));
+            }
+        }
+    }
+    // AND / OR / NOT standing directly as a condition: true is whatever is not zero, and the operation is the bitwise one
+    // (two non-zero words without a common bit are false under AND); every operand is evaluated
+    {
+        let hots: Vec<i32> = (0..16).map(|i| ((1u16 << i) as i16) as i32).collect();
+        let mut pairs: Vec<(i32, i32)> = vec![];
+        for &a in &hots {
+            for &b in &hots {
+                pairs.push((a, b));
+            }
+        }
+        for (i, &a) in lat.iter().enumerate() {
+            for (j, &b) in lat.iter().enumerate() {
+                if (i + 2 * j) % (if tier == "quick" { 7 } else { 1 }) == 0 {
+                    pairs.push((a, b));
+                }
+            }
+        }
+        let tf = |v: i64| if v != 0 { "T" } else { "F" };
+        let mut count = 0;
+        let mut head = |lines: &mut Vec<String>| {
+            lines.push("DECLARE FUNCTION Side% (V%)".into());
+            lines.push("DIM SHARED Calls%".into());
+        };
+        let tail = ["FUNCTION Side% (V%)", "Calls% = Calls% + 1", "Side% = V%", "END FUNCTION"];
+        head(&mut lines);
+        for (a, b) in pairs {
+            let and = ((a as i16) & (b as i16)) as i64;
+            let or = ((a as i16) | (b as i16)) as i64;
+            let not = !(a as i16) as i64;
+            lines.push(format!("A% = {}: B% = {}: Calls% = 0", lit(a), lit(b)));
+            lines.push("IF A% AND B% THEN PRINT \"T\"; ELSE PRINT \"F\";".into());
+            lines.push("IF A% OR B% THEN PRINT \"T\"; ELSE PRINT \"F\";".into());
+            lines.push("IF NOT A% THEN PRINT \"T\"; ELSE PRINT \"F\";".into());
+            lines.push("IF 0 THEN".into());
+            lines.push("ELSEIF A% AND B% THEN".into());
+            lines.push("PRINT \"T\";".into());
+            lines.push("ELSE".into());
+            lines.push("PRINT \"F\";".into());
+            lines.push("END IF".into());
+            lines.push("N% = 0: C% = B%".into());
+            lines.push("WHILE A% AND C%".into());
+            lines.push("N% = N% + 1: C% = 0".into());
+            lines.push("WEND".into());
+            lines.push("DO UNTIL A% OR C%".into());
+            lines.push("N% = N% + 10: C% = 1".into());
+            lines.push("LOOP".into());
+            lines.push("IF Side%(A%) AND Side%(B%) THEN PRINT \"T\"; ELSE PRINT \"F\";".into());
+            lines.push("IF Side%(A%) OR Side%(B%) THEN PRINT \"T\"; ELSE PRINT \"F\";".into());
+            lines.push("PRINT N%; Calls%".into());
+            // WHILE runs once if a AND b is not zero (then C% = 0); DO UNTIL a OR c runs once if a OR c is zero
+            let c_after = if and != 0 { 0 } else { b };
+            let n = (if and != 0 { 1 } else { 0 }) + (if ((a as i16) | (c_after as i16)) == 0 { 10 } else { 0 });
+            expect.push(format!("{}{}{}{}{}{}{}{}", tf(and), tf(or), tf(not), tf(and), tf(and), tf(or), fmt_num(n), fmt_num(4)));
+            labels.push(format!("{} AND / OR {} as a condition", a, b));
+            count += 1;
+            if count % 60 == 0 {
+                for t in tail {
+                    lines.push(t.into());
+                }
+                // one expected line per pair, many program lines per pair: flush by hand
+                let text = lines.join("\n") + "\n";
+                let exp = expect.join("\r\n") + "\r\n";
+                cases.push(json!({"k": "prog", "what": "conditions", "text": text, "expect": exp, "labels": labels, "n": expect.len()}));
+                lines.clear();
+                expect.clear();
+                labels.clear();
+                head(&mut lines);
+            }
+        }
+        if !expect.is_empty() {
+            for t in tail {
+                lines.push(t.into());
+            }
+            let text = lines.join("\n") + "\n";
+            let exp = expect.join("\r\n") + "\r\n";
+            cases.push(json!({"k": "prog", "what": "conditions", "text": text, "expect": exp, "labels": labels, "n": expect.len()}));
+        }
+        lines.clear();
+        expect.clear();
+        labels.clear();
+    }
     // MKD$ / CVD: byte-by-byte comparison through CHR$, for values written as d.d# literals
     // and for power-of-two ladders computed at run time (down into the subnormals, up to 2^1023).
     let mut doubles: Vec<(String, f64)> = vec![];
